@@ -30,6 +30,7 @@ import (
 	"io"
 	"os"
 	"path/filepath"
+	"sync"
 	"unicode/utf16"
 	"unicode/utf8"
 
@@ -106,6 +107,219 @@ func c13verifier(info []byte, pw string) error {
 		return fmt.Errorf("verifier hash does not match under the independently derived key")
 	}
 	return nil
+}
+
+// c13indepKey: ECMA-376 standard key derivation written from [MS-OFFCRYPTO] 2.3.4.7 (own UTF-16LE, own
+// SHA-1 loop): the first n bytes of X1 || X2.
+func c13indepKey(salt []byte, pw string, n int) []byte {
+	h := sha1.Sum(append(append([]byte{}, salt...), c13utf16(pw)...))
+	key := h[:]
+	for i := 0; i < 50000; i++ {
+		var it [4]byte
+		binary.LittleEndian.PutUint32(it[:], uint32(i))
+		s := sha1.Sum(append(it[:], key...))
+		key = s[:]
+	}
+	f := sha1.Sum(append(append([]byte{}, key...), 0, 0, 0, 0))
+	pad := func(b byte) []byte {
+		buf := bytes.Repeat([]byte{b}, 64)
+		for i := range f {
+			buf[i] ^= f[i]
+		}
+		d := sha1.Sum(buf)
+		return d[:]
+	}
+	x3 := append(pad(0x36), pad(0x5c)...)
+	if n > len(x3) {
+		return nil
+	}
+	return x3[:n]
+}
+
+// c13stdDoc builds a standard-encrypted compound file per [MS-OFFCRYPTO] 2.3.4.5-2.3.4.9 with an AES key
+// of keyBits (128 / 192 / 256): own key derivation, verifier, ECB package encryption.
+func c13stdDoc(plain []byte, pw string, keyBits int, rng *Rng) []byte {
+	rnd := func(n int) []byte {
+		b := make([]byte, n)
+		for i := range b {
+			b[i] = byte(rng.Intn(256))
+		}
+		return b
+	}
+	salt, verifier := rnd(16), rnd(16)
+	key := c13indepKey(salt, pw, keyBits/8)
+	blk, _ := aes.NewCipher(key)
+	ecb := func(in []byte) []byte {
+		if rem := len(in) % 16; rem != 0 {
+			in = append(append([]byte{}, in...), make([]byte, 16-rem)...)
+		}
+		out := make([]byte, len(in))
+		for i := 0; i < len(in); i += 16 {
+			blk.Encrypt(out[i:i+16], in[i:i+16])
+		}
+		return out
+	}
+	vh := sha1.Sum(verifier)
+	var b []byte
+	u16 := func(v int) { b = append(b, byte(v), byte(v>>8)) }
+	u32 := func(v int) { b = append(b, byte(v), byte(v>>8), byte(v>>16), byte(v>>24)) }
+	algID := map[int]int{128: 0x660E, 192: 0x660F, 256: 0x6610}[keyBits]
+	u16(4)
+	u16(2)
+	u32(0x24)
+	u32(0xA4)
+	u32(0x24)
+	u32(0)
+	u32(algID)
+	u32(0x8004)
+	u32(keyBits)
+	u32(0x18)
+	u32(0)
+	u32(0)
+	for _, ch := range "Microsoft Enhanced RSA and AES Cryptographic Provider (Prototype)" {
+		u16(int(ch))
+	}
+	u16(0)
+	u32(0x10)
+	b = append(b, salt...)
+	b = append(b, ecb(verifier)...)
+	u32(0x14)
+	b = append(b, ecb(vh[:])...)
+	pkg := make([]byte, 8)
+	binary.LittleEndian.PutUint64(pkg, uint64(len(plain)))
+	pkg = append(pkg, ecb(plain)...)
+	return xl.VerifC13CfbWrite([]string{"EncryptionInfo", "EncryptedPackage"}, [][]byte{b, pkg})
+}
+
+// c13stdsyn: a conformant standard-encrypted document with an AES-128/192/256 key (as Office writes
+// them; Encrypt itself only writes AES-128) must decrypt with the right password; with S = 0 the plaintext
+// is a real workbook and OpenReader must open it.
+func c13stdsyn(r *Run, keyBits, S, k int) {
+	line := fmt.Sprintf("stdsyn %d %d %d", keyBits, S, k)
+	r.Stat("op:stdsyn")
+	r.Stat(fmt.Sprintf("stdsyn:aes-%d", keyBits))
+	pw := "pä" + hex.EncodeToString([]byte{byte(k)})
+	plain := c13pat(S, k)
+	if S == 0 {
+		f := xl.NewFile()
+		_ = f.SetCellValue("Sheet1", "A1", "SECRET")
+		buf, _ := f.WriteToBuffer()
+		f.Close()
+		plain = buf.Bytes()
+	}
+	r.Case(line, true)
+	defer func() {
+		if p := recover(); p != nil {
+			r.Fail("stdsyn:panic", fmt.Sprintf("AES-%d standard-encrypted document: panic %v", keyBits, p), 0, line)
+		}
+	}()
+	doc := c13stdDoc(plain, pw, keyBits, NewRng(uint64(S)*7+uint64(k)+uint64(keyBits)))
+	dec, res := c13decrypt(doc, pw)
+	if res != "ok" || !bytes.Equal(dec, plain) {
+		r.Fail(fmt.Sprintf("stdsyn:decrypt:aes-%d", keyBits), fmt.Sprintf("a conformant standard-encrypted document with an AES-%d key (%d-byte package) does not decrypt with the right password: outcome %s, %d bytes", keyBits, len(plain), res, len(dec)), 0, line)
+		return
+	}
+	if S == 0 {
+		g, err := xl.OpenReader(bytes.NewReader(doc), xl.Options{Password: pw})
+		if err != nil {
+			r.Fail(fmt.Sprintf("stdsyn:open:aes-%d", keyBits), fmt.Sprintf("a workbook protected with standard encryption and an AES-%d key does not open with the right password: %v", keyBits, err), 0, line)
+			return
+		}
+		v, _ := g.GetCellValue("Sheet1", "A1")
+		g.Close()
+		if v != "SECRET" {
+			r.Fail(fmt.Sprintf("stdsyn:open:aes-%d", keyBits), "content differs after opening", 0, line)
+		}
+		if g2, err := xl.OpenReader(bytes.NewReader(doc), xl.Options{Password: pw + "x"}); err == nil {
+			g2.Close()
+			r.Fail("open:wrong-password-accepted", fmt.Sprintf("AES-%d standard-encrypted workbook opens with a wrong password", keyBits), 0, line)
+		}
+	}
+}
+
+// c13conc: the round trips must not depend on what other goroutines do: 8 goroutines derive keys,
+// Encrypt/Decrypt and save/open with distinct passwords at the same time; every result is compared with the
+// value computed sequentially beforehand. No timing assertions.
+func c13conc(r *Run, seed uint64) {
+	line := fmt.Sprintf("conc %d", seed)
+	r.Stat("op:conc")
+	r.Case(line, true)
+	const G = 8
+	type job struct {
+		pw   string
+		salt []byte
+		key  []byte // sequential reference
+		raw  []byte
+	}
+	rng := NewRng(seed)
+	jobs := make([]job, G)
+	for g := range jobs {
+		salt := make([]byte, 16)
+		for i := range salt {
+			salt[i] = byte(rng.Intn(256))
+		}
+		pw := fmt.Sprintf("pw-%d-%d-ü", seed, g)
+		jobs[g] = job{pw: pw, salt: salt, key: c13indepKey(salt, pw, 32), raw: c13pat(4000+977*g, g)}
+	}
+	fails := make([]string, G)
+	var wg sync.WaitGroup
+	for g := 0; g < G; g++ {
+		wg.Add(1)
+		go func(g int) {
+			defer wg.Done()
+			defer func() {
+				if p := recover(); p != nil {
+					fails[g] = fmt.Sprintf("panic: %v", p)
+				}
+			}()
+			j := jobs[g]
+			for round := 0; round < 3 && fails[g] == ""; round++ {
+				k, err := xl.VerifC13StandardKey(j.salt, j.pw, 256)
+				if err != nil || !bytes.Equal(k, j.key) {
+					fails[g] = fmt.Sprintf("round %d: derived key differs from the sequentially derived one", round)
+					break
+				}
+				enc, err := xl.Encrypt(j.raw, &xl.Options{Password: j.pw})
+				if err != nil {
+					fails[g] = "Encrypt: " + err.Error()
+					break
+				}
+				dec, err := xl.Decrypt(enc, &xl.Options{Password: j.pw})
+				if err != nil || !bytes.Equal(dec, j.raw) {
+					fails[g] = fmt.Sprintf("round %d: Decrypt(Encrypt(b,p),p) != b", round)
+					break
+				}
+				if round == 0 {
+					f := xl.NewFile()
+					_ = f.SetCellValue("Sheet1", "A1", j.pw)
+					var buf bytes.Buffer
+					werr := f.Write(&buf, xl.Options{Password: j.pw})
+					f.Close()
+					if werr != nil {
+						fails[g] = "Write: " + werr.Error()
+						break
+					}
+					o, err := xl.OpenReader(bytes.NewReader(buf.Bytes()), xl.Options{Password: j.pw})
+					if err != nil {
+						fails[g] = "OpenReader with the right password: " + err.Error()
+						break
+					}
+					v, _ := o.GetCellValue("Sheet1", "A1")
+					o.Close()
+					if v != j.pw {
+						fails[g] = "content differs after concurrent save/open"
+					}
+				}
+			}
+		}(g)
+	}
+	wg.Wait()
+	for g, f := range fails {
+		if f != "" {
+			r.Fail("conc:roundtrip-depends-on-other-goroutines", fmt.Sprintf("goroutine %d of %d (password %q): %s", g, G, jobs[g].pw, f), 0, line)
+			return
+		}
+	}
 }
 
 func c13sha512(parts ...[]byte) []byte {
@@ -421,6 +635,7 @@ func c13kds(r *Run, salt []byte, pw string, keyBits int) {
 	op := fmt.Sprintf("kds %s %s %d", hx(string(salt)), hx(pw), keyBits)
 	r.Stat("op:kds")
 	res := "PANIC"
+	ln, what := 0, ""
 	func() {
 		defer func() { _ = recover() }()
 		k, err := xl.VerifC13StandardKey(salt, pw, uint32(keyBits))
@@ -429,9 +644,18 @@ func c13kds(r *Run, salt []byte, pw string, keyBits int) {
 		} else {
 			res = "ok " + hx(string(k))
 		}
+		// direct oracle: the key [MS-OFFCRYPTO] prescribes, derived independently
+		want := c13indepKey(salt, pw, keyBits/8)
+		if (want == nil) != (err != nil) || (err == nil && !bytes.Equal(k, want)) {
+			ln = -1
+			what = fmt.Sprintf("standardConvertPasswdToKey(salt %x, password %q, %d bits) = %x (%v), the specification gives %x", salt, pw, keyBits, k, err, want)
+		}
 	}()
-	r.Op(op, res)
+	n := r.Op(op, res)
 	r.Case(op, true)
+	if ln == -1 {
+		r.Fail("kd:standard-key", what, n, op)
+	}
 }
 
 // c13kda: the real convertPasswdToKey (hook, hash algorithm SHA1) vs the model agileKey with SHA-1.
